@@ -1,5 +1,5 @@
 /- The fact values the C18 theorems are proved for (and the oracle runs the model with). -/
-import EinoV.Model.C18
+import EinoV.Model.C18Shared
 namespace EinoV.Expected.C18
 open EinoV.C18
 
@@ -22,5 +22,9 @@ def topoRD : Topo :=
 def facts : Facts :=
   { defaultChecker := firstChunkChecker, topoPlain := topoPlain, topoRD := topoRD,
     maxStepPassed := true, maxStepExported := true, defaultSlack := 10, modelPreAppends := true, toolsPreAppends := true }
+
+/-- react.go: `state.Messages` is only ever assigned `append(state.Messages, …)`, and the state
+    generator makes the slice inside the per-run closure -/
+def memFacts : MemFacts := { historyOnlyAppended := true, stateFreshPerRun := true }
 
 end EinoV.Expected.C18
